@@ -53,7 +53,7 @@ fn rejected(t: &'static str) -> BoxedStrategy<String> {
     }
 }
 
-pub const NAMES: &[&str] = &["a", "ab", "abc", "id", "id2", "lang"];
+pub const NAMES: &[&str] = &["a", "ab", "abc", "id", "id2", "lang", "postId", "Ab"];
 
 #[derive(Serialize, Deserialize, Clone, Debug, PartialEq)]
 pub struct MarkerUse {
